@@ -5,6 +5,7 @@
 package c19
 
 import (
+	"bytes"
 	"fmt"
 	"os"
 	"strings"
@@ -267,6 +268,15 @@ func grammar(seq string, verdictOK bool) error {
 	return nil
 }
 
+func firstDiff(a, b []byte) int {
+	for i := 0; i < len(a) && i < len(b); i++ {
+		if a[i] != b[i] {
+			return i
+		}
+	}
+	return min(len(a), len(b))
+}
+
 func sameErr(a, b error) bool {
 	if (a == nil) != (b == nil) {
 		return false
@@ -391,6 +401,16 @@ func check(ctx *pbt.Ctx, c Case) error {
 		}
 	}
 	withDD := libexec.Run(c.Unlock, c.Lock, flags, c.Ctx, dd)
+	// the debugger object is the caller's and may be attached to the next execution as well: the
+	// same program once more through the same object must be reported in exactly the same way
+	firstLog, firstSeq := append([]byte{}, ddLog...), ddSeq.String()
+	ddLog = ddLog[:0]
+	ddSeq.Reset()
+	withDD2 := libexec.Run(c.Unlock, c.Lock, flags, c.Ctx, dd)
+	secondLog := append([]byte{}, ddLog...)
+	ddLog = firstLog
+	ddSeq.Reset()
+	ddSeq.WriteString(firstSeq)
 	for name, o := range map[string]libexec.Outcome{"none": plain, "recording": withRec, "scribbling": withScr, "debug.NewDebugger": withDD} {
 		if o.Panic != "" {
 			return fmt.Errorf("panic with debugger=%s: %s", name, o.Panic)
@@ -435,6 +455,13 @@ func check(ctx *pbt.Ctx, c Case) error {
 			}
 		}
 		k += 2 * want
+	}
+	if withDD2.Panic != "" {
+		return fmt.Errorf("panic when the same debug.NewDebugger object is attached to a second execution: %s", withDD2.Panic)
+	}
+	if !sameErr(withDD.Err, withDD2.Err) || !bytes.Equal(firstLog, secondLog) {
+		return fmt.Errorf("the same debug.NewDebugger object attached to a second execution of the same program reports it differently: result %v then %v, %d then %d handler calls (first difference at call %d); %s",
+			withDD.Err, withDD2.Err, len(firstLog)/2, len(secondLog)/2, firstDiff(firstLog, secondLog)/2, id)
 	}
 	if rec.seq() != ddSeq.String() {
 		return fmt.Errorf("debug.NewDebugger reported a different callback sequence: %q vs %q; %s", ddSeq.String(), rec.seq(), id)
